@@ -20,7 +20,8 @@ EXPLANATION = (
     " ADDED LATER: R3-BACKEND-SOURCES: the slots of get_backend are fed from the command line and the parsed config file respectively; R4 the emitted file name is injective in the module path; R6 text coloured by penne itself takes its colour from the filtered Colors; R7 the output path may be missing for the two reviewed reasons only."
     " ROUND 7: R1-EXIT-STATUS also: main has no early return and builds no Result of its own; R4-OUT-DIR follows one level of helper."
     " ROUND 8: R4-OUT-DIR 'no two modules share a file' (set_extension replaces: the write is dominated by an insert into the set of written paths whose 'already there' edge leaves without writing) and 'an existing file is replaced, not overlaid' (std::fs::write, File::create, or OpenOptions with truncate)."
-    " ROUND 10: R2-BACKEND-INVOKED: the flag that lets do_main skip generate_output is produced by a field of the resolved arguments, which is a literal in every arm of MainArgs::try_from and true in exactly one (emit).")
+    " ROUND 10: R2-BACKEND-INVOKED: the flag that lets do_main skip generate_output is produced by a field of the resolved arguments, which is a literal in every arm of MainArgs::try_from and true in exactly one (emit)."
+    " ROUND 11: R1-ERRORS-FAIL 'the source is lexed as read': no statement before lexer::lex in the per-file loop changes the source text (an empty file must reach the lexer empty, E101).")
 
 SO = "alpha::stdout::StdOut::"
 
